@@ -490,7 +490,13 @@ class Parser:
     def parse_filter(self, stream: TokenStream) -> Filter:
         tok = stream.next_token()
         expr = self.parse_filter_selector(stream)
+        self._raise_for_non_logical_expression(expr, tok)
+        return Filter(env=self.env, token=tok, expression=BooleanExpression(expr))
 
+    def _raise_for_non_logical_expression(
+        self, expr: FilterExpression, token: Token
+    ) -> None:
+        """Raise if _expr_ can't be used as a test or as a logical operand."""
         if self.env.well_typed and isinstance(expr, FunctionExtension):
             func = self.env.function_extensions.get(expr.name)
             if (
@@ -499,17 +505,15 @@ class Parser:
                 and func.return_type == ExpressionType.VALUE
             ):
                 raise JSONPathTypeError(
-                    f"result of {expr.name}() must be compared", token=tok
+                    f"result of {expr.name}() must be compared", token=token
                 )
 
         if isinstance(expr, (Literal, Nil)):
             raise JSONPathSyntaxError(
                 "filter expression literals outside of "
                 "function expressions must be compared",
-                token=tok,
+                token=token,
             )
-
-        return Filter(env=self.env, token=tok, expression=BooleanExpression(expr))
 
     def parse_boolean(self, stream: TokenStream) -> FilterExpression:
         if stream.current.kind == TOKEN_TRUE:
@@ -558,10 +562,9 @@ class Parser:
     def parse_prefix_expression(self, stream: TokenStream) -> FilterExpression:
         tok = stream.next_token()
         assert tok.kind == TOKEN_NOT
-        return PrefixExpression(
-            operator="!",
-            right=self.parse_filter_selector(stream, precedence=self.PRECEDENCE_PREFIX),
-        )
+        right = self.parse_filter_selector(stream, precedence=self.PRECEDENCE_PREFIX)
+        self._raise_for_non_logical_expression(right, tok)
+        return PrefixExpression(operator="!", right=right)
 
     def parse_infix_expression(
         self, stream: TokenStream, left: FilterExpression
@@ -576,18 +579,8 @@ class Parser:
             self._raise_for_non_comparable_function(right, tok)
 
         if operator not in self.INFIX_LITERAL_OPERATORS:
-            if isinstance(left, (Literal, Nil)):
-                raise JSONPathSyntaxError(
-                    "filter expression literals outside of "
-                    "function expressions must be compared",
-                    token=tok,
-                )
-            if isinstance(right, (Literal, Nil)):
-                raise JSONPathSyntaxError(
-                    "filter expression literals outside of "
-                    "function expressions must be compared",
-                    token=tok,
-                )
+            self._raise_for_non_logical_expression(left, tok)
+            self._raise_for_non_logical_expression(right, tok)
 
         return InfixExpression(left, operator, right)
 
